@@ -114,6 +114,20 @@ def check_frozen_storage(out, model, wq, tag):
             out.fail(f"{tag}/{kind}/wrong-qtype", f"{n}: {w.qtype.name} instead of {wq.name}")
         if w.requires_grad:
             out.fail(f"{tag}/{kind}/requires-grad", f"{n}: frozen weight requires grad")
+
+        def inner(t_, pre=""):
+            for n_ in t_.__tensor_flatten__()[0]:
+                v_ = getattr(t_, n_)
+                if hasattr(v_, "__tensor_flatten__"):
+                    yield from inner(v_, pre + n_ + ".")
+                else:
+                    yield pre + n_, v_
+
+        # compact storage: payload, scale and zero-point are constants -- an inner tensor that still carries an autograd history keeps
+        # the float weight it was computed from (and the buffers saved for its backward) alive
+        hist = [n_ for n_, v_ in inner(w.data if isinstance(w, torch.nn.Parameter) else w) if v_.requires_grad or v_.grad_fn is not None]
+        if hist:
+            out.fail(f"{tag}/{kind}/inner-tensor-keeps-autograd-history", f"{n}: {hist} of the frozen weight require grad / carry a grad_fn: the float weight stays alive behind the frozen one")
         O.check_invariant(out, f"{tag}/{kind}", w.data if isinstance(w, torch.nn.Parameter) else w)
         numel = w.numel()
         outf = w.shape[0]
